@@ -519,7 +519,10 @@ func (m *Monitors) c11(c *Chain, o Op, res string, prevBal map[string]*big.Int) 
 		// tokens leaving the subaccount toward the owner must be staked in the same transaction
 		ownerAddr := c.AddrOf(o.Signer)
 		d := new(big.Int).Sub(c.Bal(sdkAcc(ownerAddr)).BigInt(), prevBal[ownerAddr])
-		if d.Sign() > 0 {
+		if res == "ok" && ((o.MainDed != nil && o.MainDed.Sign() < 0) || (o.SubDed != nil && o.SubDed.Sign() < 0)) {
+			// a negative part makes the other one exceed the bet amount: the difference leaves the subaccount without being staked
+			v = append(v, fmt.Sprintf("C11 subaccount wager accepted with a negative deduction (main %s, subaccount %s): %s of the subaccount's tokens reached the owner's free balance without being staked", o.MainDed, o.SubDed, d))
+		} else if d.Sign() > 0 {
 			v = append(v, fmt.Sprintf("C11 wager through the subaccount left %s of its tokens free in the owner account", d))
 		}
 	case "SEND":
